@@ -221,4 +221,5 @@ def run(col, configs, tier):
         guarded(col, X.rule_u128_count_chunks, facts)
         guarded(col, X.rule_naive_count_stages, facts)
         guarded(col, X.rule_zero_exponent_normalised, facts)
+        guarded(col, X.rule_break_magnitude, facts)
         guarded(col, F.rule_entry_validation, facts)
